@@ -22,7 +22,7 @@ from . import common
 
 ID = "C16"
 RUNS = {"quick": 520, "thorough": 20000}
-TIME = {"quick": 80, "thorough": 1500}
+TIME = {"quick": 150, "thorough": 1500}
 N1 = {"quick": 3000, "thorough": 4000}
 WALL = 240.0
 FREQ_MODELS = ("name_PlackettLuce", "short_name_PlackettLuce", "name_BradleyTerry", "name_Cumulative", "slate_PlackettLuce", "slate_BradleyTerry",
@@ -132,6 +132,7 @@ def generate(run_seed, tier):
             return {"kind": "F", "model": model, "gen": model, "candidates": ["c%d" % i for i in range(n)], "N": N1[tier], "n1": N1[tier], "by_bloc": False, "seed": seed}
         case = gen_params(rng, model)
         case.update(kind="F", model=model, gen=model, N=N1[tier], n1=N1[tier], by_bloc=True, seed=seed)
+        case["decoy"] = rng.random() < 0.4  # a second live generator (same names, other numbers) is built before sampling
         return case
     if kind == "K":
         model = rng.choice(["name_BradleyTerry_MCMC", "slate_BradleyTerry_MCMC"])
@@ -151,6 +152,7 @@ def generate(run_seed, tier):
                     if v == 0:
                         case["intervals"][b][s][k] = 1
         case.update(kind="K", model=model, gen=model, N=1, by_bloc=False, seed=seed)
+        case["decoy"] = rng.random() < 0.4
         return case
     model = rng.choice(["OneDimSpatial", "Spatial", "ClusteredSpatial"])
     n = rng.randint(2, 6)
@@ -494,6 +496,12 @@ def execute_kernel(case, trace):
                   cohesion_parameters={b: dict(v) for b, v in case["cohesion"].items()},
                   pref_intervals_by_bloc={b: {s: PreferenceInterval(dict(iv)) for s, iv in d.items()} for b, d in case["intervals"].items()})
         g = bg.name_BradleyTerry(**kw) if model.startswith("name") else bg.slate_BradleyTerry(**kw)
+        if case.get("decoy"):
+            # a second live generator with the same names and other parameters must not disturb the first one's chain
+            try:
+                keep = GP._build(GP.decoy_case(dict(case, gen=model, N=1, by_bloc=False)))
+            except Exception:
+                keep = None
     worst = 0.0
     nstates = 0
     steps = 0
